@@ -576,6 +576,19 @@ def explore(run, max_paths=4096, setup=None, canary=True, **ctxkw):
             # the code under test (or a model) raised on this path: no verdict from the prover; the native replay decides
             import traceback as _tb
             c.obls.append(Obl("engine.exception_on_path", "unknown", None, "none", 0.0, n, f"{type(e).__name__}: {e} @ {_tb.format_exc()[-400:]}", None, "engine"))
+        # generated frame condition of every path of every unit: no instrumented module was left with a written module-level table (a memo keyed by
+        # identity, code, path, size ...) - the package keeps no module-level state, so whatever a call leaves there is picked up by a later call.
+        # Candidate (weak): counts as a violation only with a natively replayed failing input.
+        try:
+            from . import instrument as _ins
+            if _ins.LOADED:
+                wr_ = _ins.written_module_state()
+                for mod_, names_ in wr_:
+                    check(f"frame.module_state_unchanged@{mod_}", False, note=f"module-level tables written by the calls of this path: {names_}", weak=True)
+                if not wr_:
+                    check("frame.module_state_unchanged", True)
+        except Exception:   # noqa - the frame scan must never turn into a verdict of its own
+            pass
         if canary:
             hy = c.hyps()
             r = _forked(lambda: _z3_check(hy, z3.BoolVal(False), 4000, False), 6.0)
